@@ -11,7 +11,7 @@ DRIVER = "drivers/Run.lean"
 TRUSTED_BASE = RUN_TRUSTED + ["decision table of the real RunContext.is_task_to_be_skipped extracted by executing it on all 2^7 combinations of the facts it reads (harness/props/_skiptable.py), re-proved equal to RunAccept.skipReason by `decide +kernel` on every run", "scheduler-only stream with keyboard interrupts injected while the main thread waits AND inside pool.apply_async (drivers/Sched.lean)"]
 ASSUMPTIONS = RUN_ASSUMPTIONS + ["the lost-task hang when the interrupt lands inside pool.apply_async is an open known finding (C08/interrupt-during-dispatch-loses-task); teardown ordering under a keyboard interrupt IS claimed (fix D11)"]
 RULE = 'sched stream: random DAG × behaviours × threads × gates × interrupt point; run stream: generated project (harness/run/gen.py) × nb_threads 1..8 × gate strategy (off/fifo/lifo/random) forcing completion orders; non-trivial = ≥ 2 tests, ≥ 1 body entered, ≥ 8 events; distinct = hash of the case (project + schedule parameters) × (Abort* placements, --stop-on-failure, keyboard interrupt at a quiescent point or at the k-th get)'
-EXPLANATION = 'The skip decision is stated outright in Lean and tied to the code by the extracted table; termination, exactly-once handling of every task and dependency order (no task — teardown, suite end — starts before its dependencies finished) under an interrupt at any moment are Lean theorems; every real run with aborts / stop-on-failure / interrupts is replayed on the composed model, whose acceptor justifies every run/skip decision by flags definitely / possibly set; the oracle checks body starts against the point where the abort became visible, reasons, teardowns and the outcome.'
+EXPLANATION = 'The skip decision is stated outright in Lean and tied to the code by the extracted table; termination, exactly-once handling of every task and dependency order (no task — teardown, suite end — starts before its dependencies finished) under an interrupt at any moment are Lean theorems; every real run with aborts / stop-on-failure / interrupts is replayed on the composed model, whose acceptor justifies every run/skip decision by flags definitely / possibly set; the oracle checks body starts against the point where the abort became visible, reasons, teardowns and the outcome. Accepted real traces are provably executions of the scheduler model (C01Accept.accepted_after_interrupt_waiting_tasks_only_skipped, …_forced_task_skipped_after_its_dependencies).'
 
 
 def witness(title_prefix):
